@@ -260,6 +260,33 @@ def collect_cases(name, module, constants, invariants, workers=6, timeout=1800):
     return info, cases
 
 
+def run_proofs(name, module="LikelyProofs", timeout=1500, threads=8):
+    """TLAPS: every obligation of the proof module must be discharged, and the negative control module
+    (a false statement) must be rejected by the same pipeline."""
+    d = fresh_dir(name)
+    t0 = time.time()
+    def tlapm(mod):
+        p = subprocess.run(["timeout", str(timeout), "tlapm", "--threads", str(threads), "--cleanfp", mod + ".tla"], cwd=d,
+                           stdout=subprocess.PIPE, stderr=subprocess.STDOUT, text=True)
+        return p.returncode, p.stdout
+    rc, out = tlapm(module)
+    open(os.path.join(d, "tlapm.log"), "w").write(out)
+    m = re.search(r"All (\d+) obligations? proved", out)
+    if rc == 124:
+        raise ToolError("tlapm timed out on %s" % module)
+    if rc != 0 or not m:
+        raise ToolError("TLAPS could not prove %s:\n%s" % (module, out[-3000:]))
+    rcn, outn = tlapm(module + "Neg")
+    fm = re.search(r"(\d+)/(\d+) obligations? failed", outn)
+    if rcn == 0 or not fm:
+        raise ToolError("TLAPS negative control %sNeg was NOT rejected:\n%s" % (module, outn[-2000:]))
+    theorems = len(re.findall(r"^(THEOREM|LEMMA) ", open(os.path.join(d, module + ".tla")).read(), re.M))
+    log("[proof] %s: %s obligations proved (%d theorems/lemmas), negative control rejected, %.1fs" % (module, m.group(1), theorems, time.time() - t0))
+    return {"name": name, "module": module, "constants": {}, "dir": d, "wall_s": round(time.time() - t0, 1), "disagreements": [],
+            "tlc": {"distinct": 0, "states_generated": 0, "ok": True},
+            "tlaps": {"obligations_proved": int(m.group(1)), "theorems": theorems, "negative_control_rejected": True}}
+
+
 # ----------------------------------------------------------------------------------------------
 # trace validation (impl -> spec)
 # ----------------------------------------------------------------------------------------------
@@ -442,7 +469,7 @@ class Check:
             "models": [{"name": m["name"], "module": m["module"], "constants": m["constants"],
                         "distinct_states": m["tlc"].get("distinct"), "states_generated": m["tlc"].get("states_generated"),
                         "diameter": m["tlc"].get("diameter"), "cases_replayed": m.get("summary", {}).get("cases"),
-                        "wall_s": m["wall_s"]} for m in self.models],
+                        "wall_s": m["wall_s"], **({"tlaps": m["tlaps"]} if "tlaps" in m else {})} for m in self.models],
             "traces": [{"name": t["name"], "events": t["events"], "mismatches": len(t["mismatches"]), "wall_s": t["wall_s"]} for t in self.traces],
             "api_calls": stats,
             "disagreements_on_other_properties": self.other,
